@@ -39,7 +39,7 @@ def gen_cases(tier: str, seed: int) -> list[dict]:
 
 
 def gen_network(rng) -> dict:  # noqa: ANN001
-    topo = rng.choice(["chain", "branch", "merge", "split", "cycle", "dimer", "cleavage"])
+    topo = rng.choice(["chain", "branch", "merge", "split", "cycle", "dimer", "cleavage", "split3", "merge3"])
     v = round(rng.uniform(0.5, 2.0), 3)
     v2 = round(rng.uniform(0.3, 1.5), 3)
     if topo == "chain":
@@ -54,6 +54,13 @@ def gen_network(rng) -> dict:  # noqa: ANN001
     elif topo == "split":
         names = ["A", "B", "C"]
         rx = [("vin", {"A": 1}, v), ("v1", {"A": -1, "B": 1, "C": 1}, v), ("vb", {"B": -1}, v), ("vc", {"C": -1}, v)]
+    elif topo == "split3":
+        # three molecules on the product side
+        names = ["X", "A", "B", "D"]
+        rx = [("vin", {"X": 1}, v), ("v1", {"X": -1, "A": 1, "B": 1, "D": 1}, v), ("va", {"A": -1}, v), ("vb", {"B": -1}, v), ("vd", {"D": -1}, v)]
+    elif topo == "merge3":
+        names = ["A", "B", "D", "C"]
+        rx = [("vina", {"A": 1}, v), ("vinb", {"B": 1}, v), ("vind", {"D": 1}, v), ("v1", {"A": -1, "B": -1, "D": -1, "C": 1}, v), ("vout", {"C": -1}, v)]
     elif topo == "dimer":
         names = ["A", "B"]
         rx = [("vin", {"A": 1}, 2 * v), ("v1", {"A": -2, "B": 1}, v), ("vout", {"B": -1}, v)]
@@ -78,6 +85,12 @@ def gen_network(rng) -> dict:  # noqa: ANN001
         labels["B"] = 2 * labels["A"]
     if topo == "merge":
         labels["C"] = labels["A"] + labels["B"] if rng.random() < 0.7 else rng.randint(1, 3)
+    if topo == "split3":
+        labels = {"A": rng.randint(1, 2), "B": rng.randint(1, 2), "D": 1}
+        labels["X"] = labels["A"] + labels["B"] + labels["D"] if rng.random() < 0.7 else rng.randint(2, 4)
+    if topo == "merge3":
+        labels = {"A": rng.randint(1, 2), "B": 1, "D": 1}
+        labels["C"] = labels["A"] + 2 if rng.random() < 0.7 else rng.randint(2, 4)
     if topo == "split" and rng.random() < 0.7:
         labels["A"] = min(4, labels["B"] + labels["C"])
     pools = {c: round(rng.uniform(0.5, 3.0), 3) * unit for c in names}
@@ -91,7 +104,7 @@ def gen_network(rng) -> dict:  # noqa: ANN001
         for s in subs:
             k /= pools[s]
         comps.append({"kind": "parameter", "name": f"k_{name}", "value": k})
-        fn = [fl.ma0, fl.ma1, fl.ma2][len(subs)]
+        fn = [fl.ma0, fl.ma1, fl.ma2, fl.ma3][len(subs)]
         comps.append({"kind": "reaction", "name": name, "fn": fl.ref(fn), "args": [f"k_{name}", *subs], "stoich": st})
         S = sum(labels[c] for c in subs)
         P = sum(labels[c] * n for c, n in st.items() if n > 0)
